@@ -167,6 +167,32 @@ def lib_valid_terms(d, n, env):
         return 0
 
 
+GENERIC_PATH = ("erf", "coth", "sech", "csch", "gamma")
+
+
+def generic_function_with_irrational_constant(rec, env):
+    """does the recipe apply a function that SeriesVisitor expands through bvisit(Function) (no dedicated
+    series) to an argument whose constant term is not a rational number (KF-C31-03 needs an Add/Mul of
+    constants there; 'not rational' is the cheap over-approximation)"""
+    found = [False]
+
+    def walk(r):
+        if not isinstance(r, list) or not r:
+            return
+        if r[0] in GENERIC_PATH:
+            try:
+                sr.series_of(r[1], 1, True, env)
+            except sr.NotExact:
+                found[0] = True
+            except (sr.NotAnalytic, sr.Unsupported, ZeroDivisionError):
+                pass
+        for x in r[1:]:
+            if isinstance(x, list):
+                walk(x)
+    walk(rec)
+    return found[0]
+
+
 def acos_with_constant(rec, env):
     """does the recipe apply acos to a series with non-zero constant term"""
     found = [False]
@@ -204,15 +230,24 @@ class C31(Check):
             "pieces of known valuation, val N >= val D <= 3); order n in 1..10. get_coeff(k), k < n, must equal the "
             "k-th Taylor coefficient of the recipe: exactly (Fractions) when my power-series model is rational, "
             "otherwise numerically (model in mpmath at 50 and 90 digits, library coefficient dumps evaluated by "
-            "oracle_num at 45/90 digits, tolerance 1e-25 relative to the largest coefficient). For n <= 6 the "
-            "model itself is cross-checked against mpmath.taylor of the recipe's evaluation closure. as_dict must "
+            "oracle_num at 45/90 digits, tolerance 1e-25 relative to the largest coefficient). The model itself is "
+            "cross-checked per case against mpmath.taylor of the recipe's evaluation closure (n <= 6, no removable "
+            "singularity) and against the value of the recipe at x = 1/256 (all n + 8 model terms); a case on "
+            "which my two references disagree is counted and not judged. The order is capped (10 / 8 / 5 / 4 / 3) "
+            "by the number of transcendental constants the recipe introduces, because the generic series keeps "
+            "them symbolic and its run time explodes. as_dict must "
             "agree with get_coeff and must not contain non-zero negative powers; as_basic must evaluate like its "
             "as_dict. Non-trivial: >= 2 non-polynomial function applications or a quotient with a non-constant "
             "denominator; distinct by (recipe, n).")
     assumptions = ["the textbook power-series recurrences in pbt/seriesref.py (cross-checked against numerical "
                    "differentiation) are the reference", "principal branches; all constant terms are real",
                    "library exceptions (NotImplementedError ...) decline a case"]
-    tiers = {"quick": {"examples": 1200, "shrink_calls": 40}, "thorough": {"examples": 40000, "shrink_calls": 80}}
+    tiers = {"quick": {"examples": 900, "shrink_calls": 40}, "thorough": {"examples": 40000, "shrink_calls": 80}}
+
+    def setup_worker(self, tier):
+        # start the driver with a generous time-out: under load the first answer of a freshly started
+        # sanitizer build can take seconds, and a timed-out reproducer would look like a repaired finding
+        self.run([["integer", 1]], timeout=120)
 
     # ------------------------------------------------------------------ generation
     def enumerate(self, tier):
@@ -228,7 +263,7 @@ class C31(Check):
             ["exp", ["add", one, x]],
             ["exp", ["sin", x]],
             ["log", ["cos", x]],
-            ["mul", x, ["cot", x]],
+            ["div", x, ["tan", x]],
             ["div", x, ["sub", ["exp", x], one]],
             ["pow", ["add", one, x], x],
             ["lambertw", ["mul", x, ["exp", x]]],
@@ -272,6 +307,9 @@ class C31(Check):
         except ZeroDivisionError:
             self.skip("ref:not_analytic")
             return
+        except (OverflowError, ValueError, ArithmeticError):
+            self.skip("ref:error")
+            return
         try:
             lo = ref_numeric(rec, n, env, 50)
             hi = ref_numeric(rec, n, env, 90)
@@ -280,6 +318,9 @@ class C31(Check):
             return
         except sr.Unsupported:
             self.skip("ref:unsupported")
+            return
+        except (OverflowError, ValueError, ArithmeticError, mpmath.libmp.NoConvergence):
+            self.skip("ref:error")
             return
         if len(hi) < n or len(lo) < n or (exact is not None and len(exact) < n):
             self.skip("ref:model_short")
@@ -352,12 +393,25 @@ class C31(Check):
 
         # ---- known findings excluded by construction
         upto = n
+        if self.tag_active("series_function_constant_recursion") and generic_function_with_irrational_constant(rec, env):
+            self.skip("known:series_function_constant_recursion")
+            return
         if self.tag_active("series_acos_constant_term") and acos_with_constant(rec, env):
             self.skip("known:series_acos_constant_term")
             return
 
         # ---- library
-        res = self.run([["let", ["symbol", "x"]], rec, ["series", R(1), R(0), n]])
+        prog = [["let", ["symbol", "x"]], rec, ["series", R(1), R(0), n]]
+        try:
+            res = self.run(prog)
+        except engine.DriverTimeout:
+            # Slowness is never a violation -- except that the unbounded recursion of KF-C31-03 needs more
+            # than the normal time-out to exhaust the stack of a sanitizer build: inputs of exactly that
+            # class (cheap by any cost model: a function of a constant) are re-run once with a 15x budget,
+            # so that the crash, not the watchdog, decides.
+            if not generic_function_with_irrational_constant(rec, env):
+                raise
+            res = self.run(prog, timeout=90)
         canon, res = B(res[1]), res[2]
         if is_exc(res):
             self.skip("assert_seen" if res["exc"] == "VerifAssertFailure" else "declined:" + res["exc"])
